@@ -87,10 +87,9 @@ type ioPlan struct {
 }
 
 func ioConfigs(tier string) []Config {
-	if tier == "thorough" {
-		return allConfigs
-	}
-	return allConfigs[:5]
+	// all six: a panic that only a 32-bit target shows (an unaligned 64-bit
+	// atomic, an int overflow) must not wait for the thorough tier
+	return allConfigs
 }
 
 func checkIO(prop, tier string, seed uint64, spec propSpec, start time.Time) int {
@@ -110,6 +109,14 @@ func checkIO(prop, tier string, seed uint64, spec propSpec, start time.Time) int
 	per := map[string]int{}
 	for i := 0; i < nw; i++ {
 		c := cfgs[i%len(cfgs)]
+		if tier == "quick" {
+			// the five amd64 tag sets share 15 workers (and the enumerations);
+			// the native 32-bit target gets one worker for the random part
+			c = cfgs[i%5]
+			if i == nw-1 {
+				c = cfgs[5]
+			}
+		}
 		plans = append(plans, ioPlan{cfg: c, worker: i, eidx: per[c.Name]})
 		per[c.Name]++
 	}
@@ -131,7 +138,7 @@ func checkIO(prop, tier string, seed uint64, spec propSpec, start time.Time) int
 			defer wg.Done()
 			args := []string{"io", "-prop", prop, "-config", p.cfg.Name, "-seed", fmt.Sprint(seed), "-worker", fmt.Sprint(p.worker),
 				"-dur", fmt.Sprintf("%ds", dur), "-eidx", fmt.Sprint(p.eidx), "-en", fmt.Sprint(p.en)}
-			if spec.enum {
+			if spec.enum && !(tier == "quick" && p.cfg.GoArch != "") {
 				args = append(args, "-enum")
 			}
 			if tier == "thorough" {
